@@ -352,42 +352,190 @@ theorem childExit_opens (cmds : List Cmd) (k : Kind) (st : St) (slot wstat : Nat
   | none => exact ⟨hI, rfl, rfl, fun pl rest => rfl⟩
   | some out => exact ⟨Inv_slots cmds st _ bytes hI, rfl, rfl, fun pl rest => by simp [opensGo]⟩
 
+/-- events that are all reports do not move the open/spawn monitor -/
+theorem opens_reports (cmds : List Cmd) (evs : List Ev) (h : ∀ e ∈ evs, ∃ d b, e = Ev.report d b) (pl : List Nat)
+    (rest : List Ev) : opensGo cmds none pl (evs ++ rest) = opensGo cmds none pl rest := by
+  induction evs with
+  | nil => rfl
+  | cons e r ih =>
+    obtain ⟨d, b, he⟩ := h e (by simp)
+    subst he
+    rw [List.cons_append, block_report]
+    exact ih (fun x hx => h x (List.mem_cons_of_mem _ hx))
+
+theorem reap_opens (cmds : List Cmd) (st : St) (slot wstat : Nat) (bytes : Bytes) (hI : Inv cmds st bytes) :
+    Inv cmds (reap st slot wstat) bytes := by
+  unfold reap
+  cases st.slots.getD slot none with
+  | none => exact hI
+  | some out =>
+    cases st.dead.getD slot none with
+    | none => exact hI
+    | some w => exact hI
+
+/-- a child-side event emits reports only, and leaves the plan and the end-of-input flag alone -/
+theorem childOp_events (k : Kind) (st : St) (op : Op) (hc : childOp op = true) :
+    (ostep k st op).1.plan = st.plan ∧ (ostep k st op).1.reading = st.reading ∧
+    ∀ e ∈ (ostep k st op).2, ∃ d b, e = Ev.report d b := by
+  cases op with
+  | cmd b => simp [childOp] at hc
+  | eof => simp [childOp] at hc
+  | out slot b =>
+    cases h : st.slots.getD slot none with
+    | none =>
+      have e : ostep k st (.out slot b) = (st, []) := by simp only [ostep, h]
+      rw [e]; exact ⟨rfl, rfl, fun e he => by cases he⟩
+    | some out =>
+      have e : ostep k st (.out slot b) = ({ st with slots := st.slots.set slot (some (accumulate k out b)) }, []) := by
+        simp only [ostep, h]
+      rw [e]; exact ⟨rfl, rfl, fun e he => by cases he⟩
+  | exit slot wstat =>
+    by_cases hd : (st.dead.getD slot none).isSome = true
+    · have e : ostep k st (.exit slot wstat) = (st, []) := by simp only [ostep, hd, if_true]
+      rw [e]; exact ⟨rfl, rfl, fun e he => by cases he⟩
+    · have e : ostep k st (.exit slot wstat) = childExit k st slot wstat := by
+        simp only [ostep, hd, Bool.false_eq_true, if_false]
+      rw [e]
+      unfold childExit
+      cases h : st.slots.getD slot none with
+      | none => exact ⟨rfl, rfl, fun e he => by cases he⟩
+      | some out => exact ⟨rfl, rfl, fun e he => by simp only [List.mem_singleton] at he; exact ⟨_, _, he⟩⟩
+  | reap slot wstat =>
+    obtain ⟨_, _, r3, r4⟩ := reap_facts st slot wstat
+    exact ⟨r4, r3, fun e he => by cases he⟩
+  | peof slot =>
+    rcases pipeEof_cases k st slot with ⟨e, _⟩ | ⟨out, ws, _, _, e⟩
+    · simp only [ostep]; rw [e]; exact ⟨rfl, rfl, fun e he => by cases he⟩
+    · simp only [ostep]; rw [e]
+      exact ⟨rfl, rfl, fun e he => by simp only [List.mem_singleton] at he; exact ⟨_, _, he⟩⟩
+
+/-- a child-side event does not touch what the command reader has collected -/
+theorem childOp_inv (cmds : List Cmd) (k : Kind) (st : St) (op : Op) (bytes : Bytes) (hc : childOp op = true)
+    (hI : Inv cmds st bytes) : Inv cmds (ostep k st op).1 bytes := by
+  cases op with
+  | cmd b => simp [childOp] at hc
+  | eof => simp [childOp] at hc
+  | out slot b =>
+    cases h : st.slots.getD slot none with
+    | none => simp only [ostep, h]; exact hI
+    | some out => simp only [ostep, h]; exact Inv_slots cmds st _ bytes hI
+  | exit slot wstat =>
+    by_cases hd : (st.dead.getD slot none).isSome = true
+    · simp only [ostep, hd, if_true]; exact hI
+    · simp only [ostep, hd, Bool.false_eq_true, if_false]
+      exact (childExit_opens cmds k st slot wstat bytes hI).1
+  | reap slot wstat => exact reap_opens cmds st slot wstat bytes hI
+  | peof slot =>
+    rcases pipeEof_cases k st slot with ⟨e, _⟩ | ⟨out, ws, _, _, e⟩
+    · simp only [ostep]; rw [e]; exact hI
+    · simp only [ostep]; rw [e]; exact hI
+
 theorem ostep_opens (cmds : List Cmd) (k : Kind) (st : St) (op : Op) (tail : Bytes) (hr : st.reading = true)
-    (hI : Inv cmds st (inputOf [op] ++ tail)) :
+    (hne : op ≠ .eof) (hI : Inv cmds st (inputOf [op] ++ tail)) :
     Inv cmds (ostep k st op).1 tail ∧ (ostep k st op).1.reading = true ∧
     ∀ rest, opensGo cmds none st.plan ((ostep k st op).2 ++ rest) = opensGo cmds none (ostep k st op).1.plan rest := by
-  cases op with
-  | cmd bytes =>
-    simp only [inputOf, List.append_nil] at hI
-    obtain ⟨c1, c2⟩ := cfeed_opens cmds st bytes tail hI
-    have hrd := (cfeed_reading st bytes)
-    simp only [ostep, hr, if_true]
-    exact ⟨c1, hrd.trans hr, c2⟩
-  | out slot bytes =>
-    simp only [inputOf, List.nil_append] at hI
-    cases h : st.slots.getD slot none with
-    | none => simp only [ostep, h]; exact ⟨hI, hr, fun rest => rfl⟩
-    | some out => simp only [ostep, h]; exact ⟨Inv_slots cmds st _ tail hI, hr, fun rest => rfl⟩
-  | exit slot wstat =>
-    simp only [inputOf, List.nil_append] at hI
-    obtain ⟨c1, c2, c3, c4⟩ := childExit_opens cmds k st slot wstat tail hI
-    simp only [ostep]
-    exact ⟨c1, c3.trans hr, fun rest => by rw [c4, c2]⟩
+  by_cases hc : childOp op = true
+  · rw [inputOf_childOp op hc, List.nil_append] at hI
+    obtain ⟨c2, c3, c4⟩ := childOp_events k st op hc
+    exact ⟨childOp_inv cmds k st op tail hc hI, c3.trans hr, fun rest => by rw [opens_reports cmds _ c4, c2]⟩
+  · cases op with
+    | cmd bytes =>
+      simp only [inputOf, List.append_nil] at hI
+      obtain ⟨c1, c2⟩ := cfeed_opens cmds st bytes tail hI
+      have hrd := (cfeed_reading st bytes)
+      simp only [ostep, hr, if_true]
+      exact ⟨c1, hrd.trans hr, c2⟩
+    | eof => exact absurd rfl hne
+    | out slot bytes => simp [childOp] at hc
+    | exit slot wstat => simp [childOp] at hc
+    | reap slot wstat => simp [childOp] at hc
+    | peof slot => simp [childOp] at hc
+
+/-- after the end of input nothing is opened any more: every event emits reports only -/
+theorem ostep_opens_closed (cmds : List Cmd) (k : Kind) (st : St) (op : Op) (hr : st.reading = false) :
+    (ostep k st op).1.reading = false ∧
+    ∀ pl rest, opensGo cmds none pl ((ostep k st op).2 ++ rest) = opensGo cmds none pl rest := by
+  by_cases hc : childOp op = true
+  · obtain ⟨_, c3, c4⟩ := childOp_events k st op hc
+    exact ⟨c3.trans hr, fun pl rest => opens_reports cmds _ c4 pl rest⟩
+  · cases op with
+    | cmd bytes =>
+      have e : ostep k st (.cmd bytes) = (st, []) := by simp only [ostep, hr, Bool.false_eq_true, if_false]
+      rw [e]; exact ⟨hr, fun pl rest => rfl⟩
+    | eof => exact ⟨rfl, fun pl rest => rfl⟩
+    | out slot bytes => simp [childOp] at hc
+    | exit slot wstat => simp [childOp] at hc
+    | reap slot wstat => simp [childOp] at hc
+    | peof slot => simp [childOp] at hc
+
+theorem orun_opens_closed (cmds : List Cmd) (k : Kind) (st : St) (ops : List Op) (hr : st.reading = false)
+    (pl : List Nat) (rest : List Ev) :
+    opensGo cmds none pl ((orun k st ops).2 ++ rest) = opensGo cmds none pl rest := by
+  induction ops generalizing st with
+  | nil => rfl
+  | cons op r ih =>
+    obtain ⟨o1, o2⟩ := ostep_opens_closed cmds k st op hr
+    simp only [orun, List.append_assoc]
+    rw [o2, ih _ o1]
+
+/-- the plan is only consumed by `open_read`, i.e. while commands are read -/
+theorem orun_plan_closed (k : Kind) (st : St) (ops : List Op) (hr : st.reading = false) :
+    (orun k st ops).1.plan = st.plan := by
+  induction ops generalizing st with
+  | nil => rfl
+  | cons op r ih =>
+    have h1 : (ostep k st op).1.plan = st.plan ∧ (ostep k st op).1.reading = false := by
+      by_cases hc : childOp op = true
+      · obtain ⟨c2, c3, _⟩ := childOp_events k st op hc
+        exact ⟨c2, c3.trans hr⟩
+      · cases op with
+        | cmd bytes =>
+          have e : ostep k st (.cmd bytes) = (st, []) := by simp only [ostep, hr, Bool.false_eq_true, if_false]
+          rw [e]; exact ⟨rfl, hr⟩
+        | eof => exact ⟨rfl, rfl⟩
+        | out slot bytes => simp [childOp] at hc
+        | exit slot wstat => simp [childOp] at hc
+        | reap slot wstat => simp [childOp] at hc
+        | peof slot => simp [childOp] at hc
+    simp only [orun]
+    rw [ih _ h1.2, h1.1]
 
 theorem orun_opens (cmds : List Cmd) (k : Kind) (st : St) (ops : List Op) (hr : st.reading = true)
     (hI : Inv cmds st (inputOf ops)) :
-    Inv cmds (orun k st ops).1 [] ∧
     ∀ rest, opensGo cmds none st.plan ((orun k st ops).2 ++ rest) = opensGo cmds none (orun k st ops).1.plan rest := by
   induction ops generalizing st with
-  | nil => exact ⟨hI, fun rest => rfl⟩
+  | nil => exact fun rest => rfl
   | cons op r ih =>
-    rw [inputOf_cons] at hI
-    obtain ⟨o1, o2, o3⟩ := ostep_opens cmds k st op (inputOf r) hr hI
-    obtain ⟨i1, i2⟩ := ih (ostep k st op).1 o2 o1
-    refine ⟨i1, ?_⟩
-    intro rest
-    simp only [orun, List.append_assoc]
-    rw [o3, i2]
+    by_cases hne : op = .eof
+    · subst hne
+      intro rest
+      have e : orun k st (.eof :: r) = ((orun k (stopReading st) r).1, (orun k (stopReading st) r).2) := by
+        simp only [orun, ostep, List.nil_append]
+      rw [e]
+      show opensGo cmds none st.plan ((orun k (stopReading st) r).2 ++ rest) = opensGo cmds none (orun k (stopReading st) r).1.plan rest
+      rw [orun_opens_closed cmds k (stopReading st) r rfl, orun_plan_closed k (stopReading st) r rfl]
+      rfl
+    · rw [inputOf_cons op r hne] at hI
+      obtain ⟨o1, o2, o3⟩ := ostep_opens cmds k st op (inputOf r) hr hne hI
+      have i2 := ih (ostep k st op).1 o2 o1
+      intro rest
+      simp only [orun, List.append_assoc]
+      rw [o3, i2]
+
+theorem finish_events (k : Kind) (st : St) (i : Nat) : ∀ e ∈ (finish k st i).2, ∃ d b, e = Ev.report d b := by
+  unfold finish
+  cases hd : st.dead.getD i none with
+  | none =>
+    simp only []
+    unfold childExit
+    cases h : st.slots.getD i none with
+    | none => exact fun e he => by cases he
+    | some out => exact fun e he => by simp only [List.mem_singleton] at he; exact ⟨_, _, he⟩
+  | some w =>
+    simp only []
+    rcases pipeEof_cases k st i with ⟨e, _⟩ | ⟨out, ws, _, _, e⟩
+    · rw [e]; exact fun e he => by cases he
+    · rw [e]; exact fun e he => by simp only [List.mem_singleton] at he; exact ⟨_, _, he⟩
 
 theorem drain_opens (cmds : List Cmd) (k : Kind) (st : St) (fuel i : Nat) (pl : List Nat) (rest : List Ev) :
     opensGo cmds none pl ((drain k st fuel i).2 ++ rest) = opensGo cmds none pl rest := by
@@ -395,19 +543,13 @@ theorem drain_opens (cmds : List Cmd) (k : Kind) (st : St) (fuel i : Nat) (pl : 
   | zero => rfl
   | succ f ih =>
     simp only [drain, List.append_assoc]
-    have hce : ∀ rest', opensGo cmds none pl ((childExit k st i 0).2 ++ rest') = opensGo cmds none pl rest' := by
-      intro rest'
-      unfold childExit
-      cases h : st.slots.getD i none with
-      | none => rfl
-      | some out => simp [opensGo]
-    rw [hce, ih]
+    rw [opens_reports cmds _ (finish_events k st i), ih]
 
 /-- **the open/spawn discipline over a whole session**, for any command list that contains the
 commands the input stream completes -/
 theorem runFrom_opens (cmds : List Cmd) (k : Kind) (st0 : St) (script : List Op) (hr : st0.reading = true)
     (hI : Inv cmds st0 (inputOf script)) : opensGo cmds none st0.plan (runFrom k st0 script).2 = true := by
-  obtain ⟨_, o2⟩ := orun_opens cmds k st0 script hr hI
+  have o2 := orun_opens cmds k st0 script hr hI
   rw [runFrom_eq]
   simp only [opensGo]
   rw [o2, ← List.append_nil (drain k (stopReading (orun k st0 script).1) Nq.Gen.auto_spawn 0).2, drain_opens]
